@@ -277,10 +277,38 @@ pub fn convert_node(ast: &ASTTy, imp: &mut Imports, state: &State, ctx: &Context
         NodeTy::Range { .. } | NodeTy::Slice { .. } => convert_range_slice(ast, imp, state, ctx)?,
 
         NodeTy::Underscore => Core::UnderScore,
-        NodeTy::Question { left, right } => Core::Or {
-            left: Box::from(convert_node(left, imp, state, ctx)?),
-            right: Box::from(convert_node(right, imp, state, ctx)?),
-        },
+        NodeTy::Question { left, right } => {
+            // Default only if left is None: `left or right` would also replace 0, "" and False
+            let left = convert_node(left, imp, state, ctx)?;
+            let right = convert_node(right, imp, state, ctx)?;
+            let default_if_none = |value: Core| Core::Ternary {
+                cond: Box::from(Core::IsN {
+                    left: Box::from(value.clone()),
+                    right: Box::from(Core::None),
+                }),
+                then: Box::from(value),
+                el: Box::from(right.clone()),
+            };
+
+            if matches!(left, Core::Id { .. }) {
+                default_if_none(left)
+            } else {
+                // Evaluate left only once, bound to a name that right does not mention
+                let right_text = format!("{right}");
+                let mut lit = String::from("value");
+                while right_text.contains(&lit) {
+                    lit.push('_');
+                }
+                let value = Core::Id { lit };
+                Core::FunctionCall {
+                    function: Box::from(Core::AnonFun {
+                        args: vec![value.clone()],
+                        body: Box::from(default_if_none(value)),
+                    }),
+                    args: vec![left],
+                }
+            }
+        }
 
         NodeTy::TypeDef { .. } | NodeTy::TypeAlias { .. } => convert_class(ast, imp, state, ctx)?,
         NodeTy::Class { .. } => convert_class(ast, imp, state, ctx)?,
